@@ -1054,19 +1054,22 @@ char * SCPI_dtostre(double __val, char * __s, size_t __ssize, unsigned char __pr
         memmove(s + decpt + 1, s + decpt, __prec + 1 - decpt);
         s[decpt] = '.';
         decpt = 0;
+        s = &s[__prec];
     } else if (decpt > -4 && decpt <= 0) {
         decpt = -decpt + 1;
         memmove(s + decpt + 1, s, __prec + 1);
         memset(s, '0', decpt + 1);
         s[1] = '.';
+        /* leading zeros are not significant digits */
+        s = &s[__prec + decpt];
         decpt = 0;
     } else {
         memmove(s + 2, s + 1, __prec + 1);
         s[1] = '.';
         decpt--;
+        s = &s[__prec];
     }
 
-    s = &s[__prec];
     while (s[0] == '0') {
         s[0] = 0;
         s--;
